@@ -231,6 +231,11 @@ def slice_(t, lo, w):
         return concat(out)
     if op == 'slice':
         return slice_(t.args[0], t.args[1] + lo, w)
+    if op == 'add' and lo > 0:
+        # the upper half of a widened addition {p, 0} + {q, 0} is the carry-out of p + q
+        p0, q0 = _zext_src(t.args[0]), _zext_src(t.args[1])
+        if p0 is not None and q0 is not None and p0.w == q0.w == lo:
+            return zext(carry(p0, q0), w) if w > 1 else carry(p0, q0)
     if op in _BITWISE:
         return bitop(op, slice_(t.args[0], lo, w), slice_(t.args[1], lo, w))
     if op == 'not':
@@ -1048,6 +1053,8 @@ def make(op, args, w):
                 return const(w, v >> k)
             sv = v - (1 << w) if (v >> (w - 1)) & 1 else v
             return const(w, (sv >> k) & ((1 << w) - 1))
+    if op == 'ctpop' and isinstance(args[0], T) and args[0].op == 'const':
+        return const(w, bin(args[0].args[0]).count('1'))
     if op in ('cttz', 'ctlz') and isinstance(args[0], T):
         # count of trailing / leading zeros decided by the known bits: scanning from the counted end, constant zero parts add their width, the first constant part
         # with a set bit ends the count; a symbolic part before that leaves it undecided
